@@ -2,6 +2,8 @@
 // stepped deterministically through the verif stepping interface by a seeded adversarial
 // scheduler (delay, reorder, duplicate, drop; a Byzantine validator played by two "twin"
 // instances with the same key plus crafted votes). Every driver call is one trace line.
+// -mode sched (sched.go): the same real nodes driven by the behaviours of spec/ConsensusSched.tla instead.
+// -x nodirected / -x directedonly: diagnostics (chaos without the directed schedule / the directed schedule alone).
 package main
 
 import (
@@ -517,8 +519,11 @@ func scenario(f *mbt.Flags, rng *rand.Rand, out *bufio.Writer, powers []int64, b
 		in.cs.VerifScheduleRound0()
 		w.collectTimeouts(in)
 	}
-	if byz && powers[0] == powers[1] && powers[1] == powers[2] && powers[2] == powers[3] && rng.Intn(10) < 8 {
+	if byz && powers[0] == powers[1] && powers[1] == powers[2] && powers[2] == powers[3] && rng.Intn(10) < 8 && f.Extra != "nodirected" {
 		w.directedLockSplit()
+	}
+	if f.Extra == "directedonly" {
+		chaosSteps = 0 // diagnostics: the directed schedule (if any) and the after-GST phase only
 	}
 	// ---- chaos phase: adversarial scheduling.
 	// Besides uniformly random delivery, "asymmetric partition" windows make lock situations frequent: one honest
@@ -613,6 +618,7 @@ func scenario(f *mbt.Flags, rng *rand.Rand, out *bufio.Writer, powers []int64, b
 	budget := 6000
 	progressed := true
 	claimed := map[string]bool{}
+	regossip := false
 	_ = windows
 	for w.minHonestHeight() < goal {
 		if budget <= 0 {
@@ -666,7 +672,7 @@ func scenario(f *mbt.Flags, rng *rand.Rand, out *bufio.Writer, powers []int64, b
 				}
 				if in.seenIdx[idx] {
 					needsBlock := rs.ProposalBlock == nil && rs.ProposalBlockParts != nil
-					if !(nm.Kind == "part" && needsBlock && w.rng.Intn(3) == 0) {
+					if !(nm.Kind == "part" && needsBlock && (regossip || w.rng.Intn(3) == 0)) {
 						continue
 					}
 				}
@@ -679,7 +685,16 @@ func scenario(f *mbt.Flags, rng *rand.Rand, out *bufio.Writer, powers []int64, b
 				}
 			}
 		}
+		if did {
+			regossip = false
+		}
 		if !did {
+			if !regossip {
+				// nothing left to deliver: before any timeout fires (or the run is declared stuck), one pass in which
+				// the parts of a block an instance is still waiting for are gossiped again unconditionally
+				regossip = true
+				continue
+			}
 			// fire the lowest pending timeout
 			best := -1
 			for i, in := range w.insts {
@@ -731,6 +746,16 @@ func main() {
 	n := f.N
 	if n <= 0 {
 		n = 10
+	}
+	if f.Mode == "sched" {
+		// model-driven schedules (sched.go): behaviours of spec/ConsensusSched.tla realised on the real nodes
+		tot := schedMode(f, out)
+		out.Flush()
+		outf.Close()
+		tot["node_panics"] = panics
+		mbt.Summary(tot)
+		mbt.Flush()
+		return
 	}
 	powerSets := [][]int64{{1, 1, 1, 1}, {3, 2, 2, 3}, {2, 2, 3, 2}, {5, 4, 4, 6}}
 	tot := map[string]any{"scenarios": 0, "steps": 0, "heights": 0, "noprogress": 0}
